@@ -5,6 +5,20 @@ HERE = os.path.dirname(os.path.dirname(os.path.abspath(__file__)))
 ALL = ["C%02d" % i for i in range(1, 21)]
 
 CHECKS = {
+ "C02": dict(
+  category="model_checking",
+  text="Formats.tla: a behaviour picks (format in class/pydantic/function/argparse, docstring style, emit_default_doc, "
+       "type_annotations, kw-only) and a signature-legal interface of 0..2 typed parameters plus optional return. Norm is the "
+       "identity up to the two normalisations the statement names; AsBuilt applies the named deviations listed as open. TLC "
+       "checks RoundTrip (ideal) and RoundTripOrDeviation (as-built); every listed deviation must be reachable. Binding: every "
+       "dumped behaviour (all 1-parameter cases + a seeded 5000 (quick) / all (thorough) 2-parameter cases) is concretised, "
+       "emitted by the real emitter, rendered with to_code, re-read with ast.parse and parsed by the matching real parser; "
+       "verdict: real == gamma(Norm).",
+  design_ref="DESIGN.md section 4, C02",
+  note="Trusted: gamma and the comparison. Untyped entries and entries without description are outside the modelled domain; the "
+       "NumPy-docstring configurations and Google-with-return are listed input-class findings (checked only for staleness).",
+  technique="TLA+ spec of emit/parse round trip with ideal and as-built rules, TLC exhaustive, every behaviour replayed through "
+            "real emit -> to_code -> ast.parse -> parse"),
  "C01": dict(
   category="model_checking",
   text="Docstring.tla: a behaviour picks (style, emit_default_doc, emit_types) and an interface of 0..2 parameters (15 type shapes "
